@@ -352,7 +352,7 @@ def run_row(row, tier, rng, viols, keys, counters):
     from stdnum.exceptions import ValidationError
     evals = 0
     src = row['src']
-    n = 12 if tier == 'quick' else 150
+    n = 12 if tier == 'quick' else 600
     base = C.corpus(src, limit=n, rng=rng)
     nums = []
     extra = C.synth_alphabet(src, rng, k=2 if tier == 'quick' else 6) + C.synth_digits_only(src, rng, k=4 if tier == 'quick' else 20)
